@@ -275,6 +275,31 @@ def handlePairings (parse : Bytes → Option Uuid) (s : PState) (req : Req) : Ou
           else if rt = 5 then (s, .tlv (listItems s) false, false)
           else (s, err500, false)                    -- ValueError
 
+/-- `response.pairing_removed` after `dispatch`: `_handle_remove_pairing` sets it once its answer is
+    written (a request refused by the guard, of another type, or whose handler raised leaves it False).
+    The protocol layer then tears down the sessions of controllers that are no longer paired (C16). -/
+def pairingRemoved (parse : Bytes → Option Uuid) (s : PState) (req : Req) : Bool :=
+  match req.conn.cu with
+  | none => false
+  | some cu =>
+    if !req.conn.enc || !isAdmin s cu then false
+    else
+      match Tlv.decode req.body [] with
+      | none => false
+      | some objs =>
+        match aget objs tReq with
+        | some (rt :: _) =>
+          if rt = 3 then false
+          else if rt = 4 then
+            match aget objs tUser with
+            | none => false
+            | some idb =>
+              match parse idb with
+              | none => false
+              | some u => if ahas s.paired u then (removePairedClient s u).2 else true
+          else false
+        | _ => false
+
 /-- legacy variant of the add path (code as shipped) for the counterexample theorem -/
 def handleAddLegacy (parse : Bytes → Option Uuid) (s : PState) (objs : Tlv.Items) : Out :=
   match aget objs tUser, aget objs tPub, aget objs tPerm with
